@@ -250,6 +250,17 @@ def _r13_own_mass(ctx, pkg):
                     composed = True
             if f is not None and f.kind == "return" and not (v == ("attr", SELF, "_massnumber") or v[0] in ("const", "carried", "acc") or any(y == ("attr", SELF, "element_count") for y in walk(v))):
                 opaque.append(show(v)[:80])
+        # private helpers the getter calls (a generator of the per-element contributions, a summing helper) are part of it
+        from .c09 import method_closure
+        helpers = [h for h in method_closure(pkg, "Species", fn)[1:] if not any(ast.unparse(d) in ("property", "cached_property", "functools.cached_property") for d in h.decorator_list)]
+        for h in helpers:
+            if any(isinstance(x, ast.Attribute) and x.attr == "element_count" and isinstance(x.value, ast.Name) and x.value.id == "self" for x in ast.walk(h)):
+                composed = True
+            if any(isinstance(x, ast.Attribute) and isinstance(x.value, ast.Name) and x.value.id == "self" and x.attr in NAMELIKE for x in ast.walk(h)):
+                opaque.append(f"{h.name}() reads a spelling of the species")
+        if helpers:
+            # what the getter returns / accumulates then comes out of those helpers
+            opaque = [o for o in opaque if o.endswith("reads a spelling of the species")]
         key_ = f"Species.{gname}:own composition"
         if by_spelling:
             ctx.bad("R13", key_, (SPECIES, by_spelling[0][0]), f"the mass number is looked up by a spelling of the species (`{by_spelling[0][1]}`) instead of being computed from its element counts: "
